@@ -18,6 +18,31 @@ def tag_of(node):
     return None
 
 
+def fold_tag_names(ctx, fi):
+    """Replace, in a normalised copy, every name whose only module-level definition is a tag literal ('type{...}') by that literal:
+    tags given a name (`_DECIMAL_KEY = 'type{decimal}'`) are the same tags."""
+    from sa.astcopy import clone
+    from sa.loader import set_parents
+    consts = {}
+    for nm, defs in fi.module.defs.items():
+        vals = [d[1] for d in defs if isinstance(d, tuple) and d[0] == 'assign']
+        if len(vals) == 1 and len(defs) == 1 and tag_of(vals[0]):
+            consts[nm] = vals[0]
+    if not consts:
+        return fi
+
+    class T(ast.NodeTransformer):
+        def visit_Name(self, n):
+            if isinstance(n.ctx, ast.Load) and n.id in consts:
+                return ast.copy_location(ast.Constant(value=consts[n.id].value), n)
+            return n
+    par = getattr(fi.node, '_parent', None)
+    T().visit(fi.node)          # fi is already a private normalised copy
+    set_parents(fi.node)
+    fi.node._parent = par
+    return fi
+
+
 def encoder_table(ctx, enc):
     """tag -> (isinstance test, payload expr, all (path values, payload) cases) from the paths of the `default` method: the last
     isinstance test answered True on a path that returns a one-key dict.  Payloads are resolved along the path, so a helper
@@ -25,7 +50,7 @@ def encoder_table(ctx, enc):
     from sa.model import norm_guard
     from sa.pathvals import PathValues
     from sa.paths import Enumerator
-    d = ctx.N(enc.methods['default'])
+    d = fold_tag_names(ctx, ctx.N(enc.methods['default']))
     out = {}
     for p in Enumerator(where=d.qualname).paths(d.node.body):
         pv = PathValues(p)
@@ -45,7 +70,7 @@ def encoder_table(ctx, enc):
 
 
 def decoder_table(ctx, dec):
-    h = ctx.N(dec.methods['object_hook'])
+    h = fold_tag_names(ctx, ctx.N(dec.methods['object_hook']))
     out = {}
     for n in ast.walk(h.node):
         if isinstance(n, ast.If) and isinstance(n.test, ast.Compare) and isinstance(n.test.ops[0], ast.In):
@@ -58,6 +83,39 @@ def decoder_table(ctx, dec):
 def fmt_names(ctx, expr):
     """module constant names of strftime/strptime formats used in expr"""
     return [n.id for n in ast.walk(expr) if isinstance(n, ast.Name) and n.id.endswith('_FORMAT')]
+
+
+def branch_text(ctx, fi, stmts, depth=2):
+    """Unparsed text of the statements plus, for every call to a module-level function of the same module that was not inlined,
+    the text of that function's body with the parameters replaced by the argument expressions (what the branch computes, wherever
+    it is written)."""
+    from sa.astcopy import clone
+    txt = ' '.join(u(s_) for s_ in stmts)
+    if depth <= 0:
+        return txt
+    seen = set()
+    for s_ in stmts:
+        for c in ast.walk(s_):
+            if isinstance(c, ast.Call) and isinstance(c.func, ast.Name) and id(c) not in seen:
+                seen.add(id(c))
+                hf = ctx.repo.functions.get('%s:%s' % (fi.module.name, c.func.id))
+                if hf is None or isinstance(hf.node, ast.Lambda) or hf.cls is not None or hf.parent is not None:
+                    continue
+                params = [a.arg for a in hf.node.args.args]
+                if len(params) != len(c.args) or c.keywords:
+                    continue
+                env = dict(zip(params, c.args))
+
+                class S(ast.NodeTransformer):
+                    def visit_Name(self, n):
+                        if isinstance(n.ctx, ast.Load) and n.id in env:
+                            return clone(env[n.id])
+                        return n
+                body = [S().visit(clone(b)) for b in hf.node.body]
+                for b in body:
+                    ast.fix_missing_locations(b)
+                txt += ' ' + branch_text(ctx, hf, body, depth - 1)
+    return txt
 
 
 def ejson_agreement(ctx):
@@ -122,7 +180,7 @@ def ejson_agreement(ctx):
             from sa.model import norm_compare
             from sa.pattern import match_expr as _me
             iso, ofs, tzn = [t.id for t in unp[0].targets[0].elts]
-            btxt = ' '.join(u(s) for s in branch.body)
+            btxt = branch_text(ctx, h, branch.body)
             ok2 = 'timedelta(seconds=%s)' % ofs in btxt and 'strptime(%s' % iso in btxt
             # offset cases: (aware?, expression) from a conditional expression or from the guards of the path
             offs = []
@@ -159,7 +217,8 @@ def ejson_agreement(ctx):
                 pv_ = _PV(p_)
                 if len(pv_.returns) != 1:
                     continue
-                aware_ret = 'timezone(' in u(pv_.returns[0])
+                # an aware result is built from the offset component; the naive result (the parsed value) is not
+                aware_ret = ofs in names_in(pv_.returns[0])
                 gs = {}
                 for t_, pol_ in p_.guards():
                     t_, pol_ = norm_compare(t_, pol_)
@@ -312,6 +371,10 @@ def check(ctx):
         fl = [n for n in own_nodes(rr.node) if isinstance(n, ast.For)]
         ok = len(fl) == 1 and match_expr('iter(%s, None)' % rd.name, fl[0].iter) is not None and \
             [u(y) for y in ast.walk(fl[0]) if isinstance(y, ast.Yield)] == ['(yield %s)' % u(fl[0].target)]
+        # ... or the same thing delegated: yield from iter(read, None)
+        yf = [n for n in own_nodes(rr.node) if isinstance(n, (ast.Yield, ast.YieldFrom))]
+        if not fl and len(yf) == 1 and isinstance(yf[0], ast.YieldFrom) and match_expr('iter(%s, None)' % rd.name, yf[0].value) is not None:
+            ok = len(reads_of(list(ast.walk(rr.node)))) == 0
     run.check(ok, 'R25', rr.where, rr.qualname, 'yield rows until the first blank line, then stop',
               'a resource reader does not stop exactly at the blank line that ends its resource')
     ys = [y for y in ast.walk(fn.node) if isinstance(y, ast.Yield)]
